@@ -1,1 +1,4 @@
+pub mod automaton;
 pub mod grammar;
+pub mod parse;
+pub mod sentences;
